@@ -176,8 +176,12 @@ func c10TableRun(seed uint64) (string, error) {
 			if len(conns) == 0 {
 				continue
 			}
-			m := conns[rng.Intn(len(conns))]
+			mi := rng.Intn(len(conns))
+			m := conns[mi]
 			_ = m.cc.Close()
+			// a closed connection is never picked again: the model's EClose addresses the key, and the key may
+			// be taken over by a replacement later
+			conns = append(conns[:mi], conns[mi+1:]...)
 			ops = append(ops, fmt.Sprintf("(EClose %s, (-2))", m.key))
 		case k < 8:
 			s.VerifTick(time.Now())
@@ -187,15 +191,33 @@ func c10TableRun(seed uint64) (string, error) {
 			pingMID++
 			d := encodeWire(0, 0, pingMID, nil, nil, nil)
 			dst := &net.UDPAddr{IP: net.IPv4(127, 0, 0, 1), Port: port}
+			drops := func() int {
+				app.mu.Lock()
+				defer app.mu.Unlock()
+				n := 0
+				for _, e := range app.errAll {
+					if strings.Contains(e, "cannot get client connection") {
+						n++
+					}
+				}
+				return n
+			}
+			before := drops()
 			if _, err := socks[j].WriteToUDP(d, dst); err != nil {
 				return "", err
 			}
-			p := &c10Peer{conn: socks[j]}
+			// witness: the Reset, or the server's report that it dropped the datagram (both attempts of getConn
+			// found a closed connection: exact key and wildcard twin)
+			p := &c10Peer{conn: socks[j], dead: func() bool { return drops() > before }}
 			mid := pingMID
+			obs := "(-2)"
 			if p.await(&c10Sched{}, dst, func(w wireMsg) bool { return w.Typ == 3 && w.MID == mid }, false) == nil {
-				return "", errors.New("table run: ping not answered")
+				if drops() == before {
+					return "", errors.New("table run: ping neither answered nor reported as dropped")
+				}
+				obs = "(-3)"
 			}
-			ops = append(ops, fmt.Sprintf("(EDgram %s %s (Some (IPhost %d)) %s, (-2))", coqAddr(raddrs[j]), coqAddr(lst), ipNum(net.IPv4(127, 0, 0, 1)), coqBytes(d)))
+			ops = append(ops, fmt.Sprintf("(EDgram %s %s (Some (IPhost %d)) %s, %s)", coqAddr(raddrs[j]), coqAddr(lst), ipNum(net.IPv4(127, 0, 0, 1)), coqBytes(d), obs))
 		}
 	}
 	mu.Lock()
